@@ -62,8 +62,10 @@ impl Property for C07 {
     type Sc = Sc;
 
     fn generate(rng: &mut Rng, _tier: Tier) -> Sc {
+        // the starting point itself may be any name: only blanks, a newline in it, multi-byte
+        let root = rng.pick(&["t", "t", "t", "t", "t", "t", " ", "  ", "a b", "\t", "\u{e9}", "t\n", "'", "{}"]).to_string();
         let cfg = TreeCfg {
-            roots: vec!["t".into()],
+            roots: vec![root.clone()],
             max_entries: *rng.pick(&[0, 3, 8, 15, 25]),
             max_depth: rng.urange(1, 4),
             names: if rng.chance(9, 10) { NameStyle::Hostile } else { NameStyle::Simple },
@@ -74,7 +76,11 @@ impl Property for C07 {
             raw_byte: None,
         };
         let spec = gen_tree(rng, &cfg);
-        let start = rng.pick(&["t", "t", "./t", "t/"]).to_string();
+        let start = match rng.below(4) {
+            0 | 1 => root.clone(),
+            2 => format!("./{root}"),
+            _ => format!("{root}/"),
+        };
         let sink_plan: Vec<WriteOp> = match rng.weighted(&[3, 3, 2]) {
             0 => vec![],
             1 => (0..rng.urange(5, 200))
@@ -345,9 +351,10 @@ impl Property for C07 {
             s.xargs_n = None;
             push(s);
         }
-        if sc.start != "t" {
+        let root = sc.find.tree.nodes.first().map(|n| n.path().to_string()).unwrap_or_else(|| "t".into());
+        if sc.start != root {
             let mut s = sc.clone();
-            s.start = "t".into();
+            s.start = root.clone();
             push(s);
         }
         if sc.follow.is_some() {
@@ -355,7 +362,7 @@ impl Property for C07 {
             s.follow = None;
             push(s);
         }
-        for t in shrink_tree(&sc.find.tree, &["t".to_string()]) {
+        for t in shrink_tree(&sc.find.tree, &[root.clone()]) {
             let mut s = sc.clone();
             s.find.tree = t;
             push(s);
